@@ -141,6 +141,14 @@ let cls_str = function
   | ClsShort -> "short" | ClsNot -> "not" | ClsUnmod -> "unmod"
   | Cls (t, v) -> Printf.sprintf "cls:%d:%d.%d" (int_of_z t) (int_of_z v.vmaj) (int_of_z v.vmin)
 
+
+let err_of = function "EOF" -> EOF | "IO" -> ErrIO | "" -> EOF | s -> failwith ("err_of " ^ s)
+(* segments: "hex:err" items joined by ','; err is "", "EOF" or "IO"; "_" is the empty list *)
+let segs_of s = if s = "_" then [] else
+    List.map (fun it -> match String.split_on_char ':' it with
+        | [d; e] -> { seg_data = h2b d; seg_err = (if e = "" then None else Some (err_of e)) }
+        | _ -> failwith "seg") (String.split_on_char ',' s)
+
 let ints_to_str l = match l with [] -> "-" | _ -> String.concat "," (List.map string_of_int l)
 let str_to_ints s = if s = "-" then [] else List.map int_of_string (String.split_on_char ',' s)
 
@@ -227,6 +235,25 @@ let ops : (string * (string list -> string)) list = [
   "binary_slice", (function [b] -> cls_str (m_binary_slice (h2b b)) | _ -> failwith "args");
   "armored_prefix", (function [b] ->
       let (brand, cl) = m_armored_prefix (h2b b) in bytes_to_hex brand ^ " " ^ cls_str cl | _ -> failwith "args");
+  (* ---- stream state machines ---- *)
+  "pr_sched", (function [segs; fin; sizes] ->
+      let src = { src_segs = segs_of segs; src_final = err_of fin } in
+      String.concat " " (List.map (function
+        | PrData d -> "D:" ^ bytes_to_hex d
+        | PrPunct d -> "P:" ^ bytes_to_hex d
+        | PrErr (d, e) -> "E:" ^ bytes_to_hex d ^ ":" ^ err_str e)
+        (m_pr_run (List.map nat_of_int (str_to_ints sizes)) (m_pr_init src))) | _ -> failwith "args");
+  "pr_until", (function [segs; fin; lim] ->
+      let src = { src_segs = segs_of segs; src_final = err_of fin } in
+      (match m_pr_until (nat_of_int 100000) (nat_of_int (int_of_string lim)) src with
+       | Ok b -> "ok " ^ bytes_to_hex b
+       | Err e -> "err " ^ err_str e) | _ -> failwith "args");
+  "cr_sched", (function [chunks; sizes] ->
+      let l = List.map (fun sg -> (sg.seg_data, sg.seg_err)) (segs_of chunks) in
+      String.concat " " (List.map (fun (d, e) ->
+          bytes_to_hex d ^ ":" ^ (match e with None -> "" | Some e -> err_str e))
+        (m_cr_run (List.map nat_of_int (str_to_ints sizes)) { cr_prev = []; cr_err = None; cr_pending = l })) | _ -> failwith "args");
+  "armor_stream", (function [hdr; ftr; pieces] -> bytes_to_hex (m_armor_stream (h2b hdr) (h2b ftr) (blist_of pieces)) | _ -> failwith "args");
 ]
 
 let () =
